@@ -1897,6 +1897,55 @@ pub fn check(scn: &ServerScn, log: &[Ev], sim: &Sim, node: u8) -> Vec<Violation>
         }
     }
 
+    // ---- C04: reads come before writes. In every pass the channel first reads the transport
+    // until it yields a request or runs dry and only then writes a response, so a response is
+    // never put on the wire ahead of a cancellation for it that was already there to be read when
+    // the poll began. (Not so behind a request limit: a limiter that is at its limit does not read
+    // while the sink cannot take a refusal, and a flush later in the same pass lets the write go
+    // first. The cancellation has not been received then, and the property starts there.)
+    if limit.is_none() {
+        let mut push_seqs: Vec<u64> = Vec::new();
+        let mut taken = 0usize;
+        let mut poll_begin: HashMap<u16, u64> = HashMap::new();
+        // per task: responses written in its current poll before it asked the transport for anything
+        let mut early: HashMap<u16, (bool, Vec<(u64, u64)>)> = HashMap::new();
+        'order: for e in log {
+            match &e.kind {
+                EvKind::PeerPush { link: 0, .. } => push_seqs.push(e.seq),
+                EvKind::PollBegin => {
+                    poll_begin.insert(e.task, e.seq);
+                    early.insert(e.task, (false, Vec::new()));
+                }
+                EvKind::TOp { link: 0, op: Op::Send, res: Res::Ok, item: Some(Item::Resp { id, .. }) } => {
+                    if let Some((asked, sent)) = early.get_mut(&e.task) {
+                        if !*asked {
+                            sent.push((*id, e.seq));
+                        }
+                    }
+                }
+                EvKind::TOp { link: 0, op: Op::Next, res, item } => {
+                    let got = matches!(res, Res::Ok) && item.is_some();
+                    let pushed_at = if got { push_seqs.get(taken).copied() } else { None };
+                    if got {
+                        taken += 1;
+                    }
+                    if let (Some(Item::Cancel { id, .. }), Some(pb), Some((_, sent))) = (item, poll_begin.get(&e.task), early.get(&e.task)) {
+                        if let Some((_, sseq)) = sent.iter().find(|(sid, _)| sid == id) {
+                            if pushed_at.map(|p| p < *pb).unwrap_or(false) && !m.unclean.contains(id) {
+                                v.push(viol("C04", "response-after-cancel", &["overtaken"], format!("the cancel for id {id} was on the transport (delivered at seq {}) when the poll began at seq {pb}; the channel wrote the response at seq {sseq} before reading anything and read the cancel at seq {}", pushed_at.unwrap(), e.seq)));
+                                break 'order;
+                            }
+                        }
+                    }
+                    if let Some((asked, _)) = early.get_mut(&e.task) {
+                        *asked = true;
+                    }
+                }
+                _ => {}
+            }
+        }
+    }
+
     // ---- C11 / C04.still-counted: reported count against the interval model
     // After a failure only the first sample (taken at the end of the failing poll) is still
     // compared, and only if what failed was the write of a response: the request it answered has
